@@ -7,7 +7,7 @@ cd /verif
 if ! git -C /repo diff --quiet; then echo "/repo not clean"; exit 2; fi
 git -C /repo apply "$patch" || { echo "patch does not apply"; exit 2; }
 log=$(mktemp /tmp/seedrun.XXXXXX)
-./check $id --tier $tier > $log 2>&1; rc=$?
+timeout 1500 ./check $id --tier $tier > $log 2>&1; rc=$?
 git -C /repo checkout -- .
 nviol=$(grep -c '^VIOLATION' $log)
 echo "== $id $(basename $(dirname $patch)) exit=$rc violations=$nviol"
